@@ -18,9 +18,9 @@ from holopy.scattering.theory.lens import Lens
 from holopy.scattering.scatterer import Spheroid, Cylinder
 
 ID = "C05"
-LEAN_MODULES = ["HoloProps.C05", "HoloProps.C08Gen"]
-MODEL_MODULES = ["HoloModel.ImageFormation", "HoloModel.LensModel", "HoloGen.Math", "HoloGen.Proj", "HoloModel.CxExtra", "HoloGen.PyMieLens", "HoloGen.PyLens"]
-GEN_DEPS = ["Math", "Proj", "PyMieLens", "PyLens"]
+LEAN_MODULES = ["HoloProps.C05", "HoloProps.C08Gen", "HoloProps.C09Gen"]
+MODEL_MODULES = ["HoloModel.ImageFormation", "HoloModel.LensModel", "HoloGen.Math", "HoloGen.Proj", "HoloModel.CxExtra", "HoloGen.PyMieLens", "HoloGen.PyLens", "HoloModel.Cluster", "HoloGen.PyRule"]
+GEN_DEPS = ["Math", "Proj", "PyMieLens", "PyLens", "PyRule"]
 NOT_PROVED = [
     "Lens for rotation angles off its azimuthal quadrature grid: exact only in the limit of a converged quadrature (the residual is quadrature error; searched with the measured residual reported)",
     "covariance of the compiled Multisphere (SCSMFO) and T-matrix solutions: un-modelled Fortran, searched",
